@@ -154,6 +154,16 @@ def run(ctx):
     pre = ('assertion.', 'claimSignature.', 'ingredient.', 'claim.', 'manifest.')
     verdict.code_kind_agreement(ctx, prog, 'C02-D5', code_filter=lambda c: c.startswith(pre))
 
+    # ---- D4 data boxes: a box is handed out for a hashed reference only when the stored hash equals the hash in the reference
+    for name in [n for n in prog.fns() if re.match(r'^claim::Claim::get_databox::\{closure#\d+\}$', n)]:
+        f2 = prog.fn(name)
+        if not any(rv['k'] == 'agg' and rv.get('variant') == 'Some' for b in f2.B for d, rv in b['s']):
+            continue
+        ctx.analysed(name, len(list(f2.calls())))
+        gh = CallGuard(r'hash_utils::vec_compare$', 'true', name='vec_compare(stored hash, reference hash) = true')
+        oblig.returns_only_if(ctx, 'C02-D4', f2, 'Some', [gh], name='Some(data box)')
+    ctx.ob('C02-D4', 'claim::Claim::get_databox', 'lookup closure', 'exists', any(re.match(r'^claim::Claim::get_databox::\{closure#\d+\}$', n) for n in prog.fns()), nontrivial=False)
+
 
 def closure_has(prog, fn, consts, code, kind):
     for bi, t in fn.calls():
